@@ -1345,6 +1345,12 @@ func (r *runningStep) runStage(forceCloseTimeoutMS int64) error {
 	// Execution complete, move to state running stage outputs, then to state finished stage.
 	r.transitionRunningStage(StageIDOutput)
 	r.completeStep(r.currentStage, step.RunningStepStateFinished, &result.OutputID, &result.OutputData)
+	// The step produced its output: it can no longer crash, fail to deploy or be closed early.
+	// Without this, anything that depends on those stages would wait until every other step ends.
+	doneErr := fmt.Errorf("step %s/%s finished with an output", r.runID, r.pluginStepID)
+	r.stageChangeHandler.OnStepStageFailure(r, string(StageIDDeployFailed), &r.wg, doneErr)
+	r.stageChangeHandler.OnStepStageFailure(r, string(StageIDCrashed), &r.wg, doneErr)
+	r.markNotClosable(doneErr)
 
 	return nil
 }
